@@ -106,27 +106,13 @@ class _S(minirust.Obj):
 class _Cx(minirust.Obj):
     def __init__(self, expr, w):
         self.expr = expr
-        minirust.Obj.__init__(self, 'complex', {'arg': lambda a: _Arg(expr, w)}, strict=False)
+        minirust.Obj.__init__(self, 'complex', {'arg': self._arg}, strict=False)
+        self.w = w
 
-
-class _Arg:
-    """the argument of the scalar of a diagram; comparing it with 0.0 asks the world"""
-
-    def __init__(self, expr, w):
-        self.expr, self.w = expr, w
-
-    def is_zero_test(self, other):
-        if isinstance(other, (int, float)) and not isinstance(other, bool) and other == 0:
-            self.w['arg_tested_on'].append(self.expr)
-            return self.w['argzero']
-        raise minirust.NoEval('the scalar argument is compared with %r' % (other,))
-
-    def __eq__(self, o):
-        return self.is_zero_test(o)
-
-    def __ne__(self, o):
-        return not self.is_zero_test(o)
-    __hash__ = None
+    def _arg(self, a):
+        # the argument of the scalar of a diagram: the world says what it is (a concrete angle); reading it is recorded
+        self.w['arg_tested_on'].append(self.expr)
+        return float(self.w['argval'])
 
 
 class _T:
@@ -190,13 +176,20 @@ def _interp(w, simplifiers, delegate=None):
             w['simp'].append(c)
             return True
         if c.endswith('Default::default') and 'AbsDiff' in (e.get('ty') or ''):
+            # approx::AbsDiff<f64>: |a - b| <= epsilon, default epsilon f64::EPSILON
+            st = {'eps': 2.220446049250313e-16}
+
             def eq(a):
-                for x, y in ((a[0], a[1]), (a[1], a[0])):
-                    if isinstance(x, _Arg):
-                        return x.is_zero_test(y)
+                if len(a) == 2 and all(isinstance(x, (int, float)) and not isinstance(x, bool) for x in a):
+                    return abs(float(a[0]) - float(a[1])) <= st['eps']
                 raise minirust.NoEval('abs_diff_eq on %r' % (a,))
-            o = minirust.Obj('absdiff', {'eq': eq, 'ne': lambda a: not eq(a)}, strict=True)
-            o.methods['epsilon'] = lambda a: o
+
+            def eps(a):
+                if not (isinstance(a[0], (int, float)) and not isinstance(a[0], bool)):
+                    raise minirust.NoEval('epsilon(%r)' % (a[0],))
+                st['eps'] = float(a[0])
+                return o
+            o = minirust.Obj('absdiff', {'eq': eq, 'ne': lambda a: not eq(a), 'epsilon': eps}, strict=True)
             return o
         if delegate and c in delegate:
             a = args()
@@ -232,14 +225,18 @@ def decision_semantics(f, facts):
            'exact mode answers "equal" only when the scalar argument of the composed diagram is zero': [True, None],
            'answers "not equal" only on a dimension mismatch or a non-zero scalar argument of an identity': [True, None]}
     n = 0
-    for dims, ident, upto, argzero in itertools.product((True, False), repeat=4):
-        w = _world(dims=dims, identity=ident, argzero=argzero)
+    import math
+    # the angle of the leftover scalar: zero; float noise (either answer is tolerated); a genuine small phase (pi / 2^22, a QFT-scale rotation); larger ones
+    ANGLES = (0.0, 1e-13, math.pi / (1 << 22), 1e-3, math.pi, -math.pi / 2)
+    for dims, ident, upto, argval in itertools.product((True, False), (True, False), (True, False), ANGLES):
+        argzero = abs(argval) <= 1e-9
+        w = _world(dims=dims, identity=ident, argval=argval)
         it = _interp(w, set(simp))
         g1, g2 = _G(('arg', 1), w), _G(('arg', 2), w)
         got = _run_fn(f, it, {ps[0]['id']: g1, ps[1]['id']: g2, ps[2]['id']: upto})
         n += 1
         desc = 'dimensions %s, composed diagram %s the identity, up_to_global_phase=%s, scalar argument %s' % (
-            'agree' if dims else 'differ', 'is' if ident else 'is not', str(upto).lower(), 'zero' if argzero else 'non-zero')
+            'agree' if dims else 'differ', 'is' if ident else 'is not', str(upto).lower(), '%.3g rad' % argval)
         if got == minirust.NONE:
             continue
         if not (isinstance(got, tuple) and len(got) == 2 and got[0] == 'Some' and isinstance(got[1], bool)):
@@ -261,7 +258,7 @@ def decision_semantics(f, facts):
         else:
             r = res['answers "not equal" only on a dimension mismatch or a non-zero scalar argument of an identity']
             mismatch = bool(w['dims_asked']) and not dims
-            nonzero = comp_ok and ident and not upto and bool(w['arg_tested_on']) and all(e in asked for e in w['arg_tested_on']) and not argzero
+            nonzero = comp_ok and ident and not upto and bool(w['arg_tested_on']) and all(e in asked for e in w['arg_tested_on']) and argval != 0.0
             if not (mismatch or nonzero) and r[0]:
                 r[0], r[1] = False, 'answers Some(false) when %s' % desc
     return dict((k, tuple(v)) for k, v in res.items()), n
@@ -362,7 +359,8 @@ def _run_own(ck):
     from .. import reffect, enumeval
     from .C11 import is_identity_obligations
     is_identity_obligations(ck, facts, ' (the test behind every "equal" answer)')
-    from .C11 import graph_function_obligations
+    from .C11 import graph_function_obligations, composition_obligations
+    composition_obligations(ck, facts)
     graph_function_obligations(ck, facts, ['graph::GraphLike::adjoint', 'graph::GraphLike::to_adjoint', 'graph::GraphLike::plug', 'graph::GraphLike::append_graph'], E.C11_SCHEMAS)
     ET = 'graph::EType::'
     mg = enumeval.table(facts, 'graph::EType::merge', [[ET + 'N', ET + 'H'], [ET + 'N', ET + 'H']])
